@@ -7,13 +7,74 @@ COMMON_NOTE = ("Trusted: Coq 8.16.1 kernel incl. vm_compute (no native_compute, 
                "global context'); the hand-written Gallina model is tied to /repo only by the correspondence check (differential "
                "execution of rdflib from /repo against the model evaluated inside Coq, harness/*.py); no extraction is used.")
 
+T_CORR = " + model/implementation correspondence check (rdflib run against the Gallina model and the verified spec checker, both evaluated inside Coq)"
+
 CLAIMED = {
     "C18": dict(
         text="Proof: for every initial content and every history of add/remove(pattern)/commit/rollback of one or two auditable "
              "wrappers over one store the model's store content satisfies the rollback/commit specification (Coq theorems "
              "C18_two_wrappers, C18_rollback_restores_commit_keeps, by a log invariant and induction over the history). The model "
              "is tied to auditable.py by differential runs on generated and exhaustively enumerated histories evaluated in Coq.",
-        design="7/C18", technique="Coq proof (log invariant + simulation by induction over histories) + model/implementation correspondence check"),
+        design="0, 7/C18", technique="Coq proof (log invariant + simulation by induction over histories)" + T_CORR),
+    "C02": dict(
+        text="Proof: on a Gallina model of ConjunctiveGraph/Dataset over an abstract quad store, for every state: add/remove are isolated "
+             "per graph, remove without graph removes from all graphs, remove_graph empties and forgets only that graph, membership is exact, "
+             "no fallback to another graph for an empty or unknown graph (C02_no_fallback, after the fix: commit); the agreement of all views "
+             "(quads, graphs, per-graph views, union view) is proved for histories outside two known-finding trigger regions (partial). "
+             "Tied to rdflib/graph.py by differential runs on generated histories incl. IRI- and bnode-named graphs, default_union on/off.",
+        design="0, 7/C02", technique="Coq proof (invariants over dataset histories, refinement to a map graph name -> triple set)" + T_CORR),
+    "C06": dict(
+        text="Proof (routing level): for every well-formed dataset the model of each serialiser/parser pair returns each triple to its graph up to "
+             "blank-node renaming: N-Quads, HexTuples and RDF Patch add at full strength; TriG, TriX, JSON-LD and Patch diff/apply partial under "
+             "explicit trigger hypotheses, each with a refuting witness reproduced on rdflib (known findings). A verified boolean isomorphism "
+             "decision procedure judges what the six real serialiser/parser pairs return. Text/XML/JSON layers are exercised, not modelled.",
+        design="0, 7/C06", technique="Coq proof (routing functions, iso decision procedure proved sound and complete)" + T_CORR),
+    "C07": dict(
+        text="Proof: on a Gallina model of rdflib terms: equality is an equivalence distinguishing kinds and (lexical, datatype, lower-cased language); "
+             "equal terms hash alike for any string hash; kind order bnode<variable<IRI<literal over the table reflected from the source; IRIs/bnodes "
+             "order as their strings (strict total); pickling and the n3/from_n3 round trip partial (refuted for non-normalised literals, backslash-x, "
+             "variables: known findings). The laws are also checked by the Coq checker on all pairs/triples of ~220-term pools run through real rdflib.",
+        design="0, 7/C07", technique="Coq proof (algebraic laws on a term model, finite table facts by vm_compute over reflected tables)" + T_CORR),
+    "C08": dict(
+        text="Proof: on a Gallina model of evalDistinct/OrderBy/Slice/Project/AggregateJoin and the seven accumulators: DISTINCT, ORDER BY (permutation "
+             "and sortedness for any ASC/DESC key list, key order proved a total preorder), slice = firstn/skipn, projection, grouping partitions the "
+             "input, each aggregate equals its SPARQL 18.5 definition per group; five refuted corners are known findings. rdflib's rows are judged stage "
+             "by stage by the verified checker (multiset + sortedness, ties left open).",
+        design="0, 7/C08", technique="Coq proof (list permutation/sortedness lemmas, fold invariants for aggregates)" + T_CORR),
+    "C09": dict(
+        text="Proof (partial): on a Gallina model of Literal construction/normalisation over tables reflected from the source: the 13 XSD integer types, "
+             "boolean and the string family are faithful (valid forms accepted with the XSD value, round trip, normalisation idempotent and value-preserving), "
+             "eq agrees with value equality for integers; decimal, float/double, date/time/duration, binary types are tied by correspondence/conformance runs "
+             "against an independent oracle only. Seven groups of defects are known findings with refuting witnesses.",
+        design="0, 7/C09", technique="Coq proof (lexical/value maps over Z, generic idempotence from parse-print identity; reflected tables)" + T_CORR),
+    "C11": dict(
+        text="Proof: for every graph, every well-formed path expression and each of the four bound/unbound combinations of the ends the model of "
+             "rdflib/paths.py (incl. MulPath with its shared seen set) yields exactly the pairs of the relational semantics, terminates within the stated fuel, "
+             "closures are duplicate-free, zero-length matches hold for absent terms; partial under four trigger regions (known findings F4b-F4e with witnesses). "
+             "Tied to Graph.triples/subjects/objects and the SPARQL route by differential runs.",
+        design="0, 7/C11", technique="Coq proof (structural induction on paths, DFS reachability invariant, Warshall closure as executable spec)" + T_CORR),
+    "C12": dict(
+        text="Proof: on a model of a parse call as a fold of add over statements under a per-call label map: parsing only adds (full strength after the fix: commit), "
+             "the result is the RDF merge of old content and document, labels are scoped to the call and one node per label within a document incl. across named graphs, "
+             "same document into two fresh graphs gives isomorphic graphs (bijection exhibited); refuted for the identity-label parsers TriX/JSON-LD/HexTuples (known finding F9). "
+             "The checker recovers the label-to-node map from tag triples and judges what the eight real parsers produced.",
+        design="0, 7/C12", technique="Coq proof (invariant over sequences of parse calls, freshness supply as section hypothesis)" + T_CORR),
+    "C14": dict(
+        text="Proof (partial): a backtracking isomorphism decision procedure is proved sound and complete (iso_dec = true <-> exists injective blank-node renaming) and judges "
+             "isomorphic/to_isomorphic/to_canonical_graph of rdflib on symmetric families; graph_diff partition laws, soundness of canonical-form equality, and the skolemise/de-skolemise "
+             "round trip (under stated urljoin/urlparse hypotheses replayed on the real functions) are proved; COMPLETENESS of rdflib's canonical labelling is not proved (differential evidence only). "
+             "One known finding (blank node in predicate position).",
+        design="0, 7/C14", technique="Coq proof (verified iso decision procedure as oracle, set-operator laws, string model of skolemisation)" + T_CORR),
+    "C16": dict(
+        text="Proof: JSON term/result round trip (assuming json loads∘dumps = id as a visible hypothesis), XML text/attribute escaping round trips by induction over characters "
+             "for XML Chars (CR, control characters, empty IRI, falsy literals refuted: known findings), TSV term and row recovery for every W3C-conformant rendering (document level run only), "
+             "CSV cells; the tie theorem covers JSON, XML and CSV cases outside the trigger regions. Tied to the four real writers/readers by differential runs on random tables.",
+        design="0, 7/C16", technique="Coq proof (character-level codec round trips by induction, scanner models of the TSV grammar)" + T_CORR),
+    "C20": dict(
+        text="Proof: on a model of SPARQLStore/SPARQLUpdateStore as request algebra + edit queue over a specification-level endpoint: every write has the same effect as on a local dataset, "
+             "triples for all 8 shapes and len mirror the endpoint, and for every history the endpoint equals the due writes in order (commit / non-dirty read / rollback rules) by simulation; "
+             "four known findings with refuting witnesses. Tied to the real client by histories against a loopback HTTP endpoint (GET/POST/POST_FORM, XML/JSON); request text and HTTP are run only.",
+        design="0, 7/C20", technique="Coq proof (state-machine simulation over histories)" + T_CORR),
 }
 
 NOT_YET = {}  # filled below for every property without a check
